@@ -62,7 +62,10 @@ Definition run_io (gs : list (list op)) :=
   (os,
    (map (map PS) [i_target c; i_task c; i_alg c; i_state c; i_value c],
     map (map (fun e => (PS (fst e), snd e)))
-        [t_target c; t_task c; t_alg c; t_state c; t_value c])).
+        [t_target c; t_task c; t_alg c; t_state c; t_value c],
+    map (option_map (fun x : vrow =>
+           let '(a, b, c0, d, e, f, g) := x in (PS a, PS b, PS c0, PS d, e, f, g)))
+        (versions c))).
 
 (* Interface._load walks the state vector of the algorithm and then the
    MetricStateVector (dawgie.util.metrics): 14 values, sv version 1.1.1,
